@@ -29,9 +29,11 @@ package whoami
 //@ updates mut
 //@ modifies m
 //@ ensures mut == old(mut) + 1 && m.Rcode == old(m.Rcode) && m.Authoritative == old(m.Authoritative) && m.Id == old(m.Id) && m.Response == old(m.Response) && m.Answer == old(m.Answer)
+//@ ghostvar scrubs nat
 //@ extern github.com/coredns/coredns/request Request.Scrub
-//@ updates mut
+//@ updates mut, scrubs
 //@ modifies reply
+//@ ensures scrubs == old(scrubs) + 1
 //@ ensures mut == old(mut) + 1 && reply.Rcode == old(reply.Rcode) && reply.Authoritative == old(reply.Authoritative) && reply.Id == old(reply.Id) && reply.Response == old(reply.Response) && len(reply.Answer) <= old(len(reply.Answer))
 //@ ensures result == reply
 //@ extern github.com/miekg/dns Msg.SetReply
